@@ -137,6 +137,11 @@ func buildReport(ck *Checker, dis *Discharger, results []*OblResult, prop, tier 
 	for _, e := range ck.toolErrs {
 		fmt.Println("TOOL-LIMIT:", e)
 	}
+	if verbose {
+		for a := range ck.abstractions {
+			fmt.Println("ABSTRACTION:", a)
+		}
+	}
 	// fail closed: zero obligations, missing functions, tool limits
 	if len(rep.agg) == 0 {
 		fmt.Printf("ERROR: no obligations generated for %s\n", prop)
